@@ -109,8 +109,9 @@ def check_c19(ctx):
 
 def gen_drift(ctx, nmax):
     """Implementation traces against the binomial generator model (diagnostic only)."""
-    cfgs = boxes.multistage(nmax)
+    cfgs = boxes.multistage(nmax) + boxes.revolve_family(nmax, (1, 2, 3), boxes.COSTS6[:3], classes=("Revolve",))
     traces = record.record_many(cfgs)
     verdicts = fw.validate(ctx, traces, module="TraceGenBinomial")
     drift = [fw.describe(t) for t, v in zip(traces, verdicts) if any(c == "GEN.drift" for c, _, _ in v["viol"])]
-    return {"model": "GenBinomialCore", "traces": len(traces), "drifting": len(drift), "examples": drift[:5]}
+    return {"model": "GenBinomialCore (Multistage, all splits and trajectories; Revolve, 3 cost vectors)",
+            "traces": len(traces), "drifting": len(drift), "examples": drift[:5]}
